@@ -278,6 +278,17 @@ def apply_rules(ctx, w, S, R):
         ctx.check(all(is_clear(t) for t in rts), "G2", "Pen::default", "Pen::default() is not the all-clear pen: %s" % [w.tstr(fn, t) for t in rts], loc=w.fn_loc(fn))
 
 
+def inline_helper(w, t):
+    """`helper(&self, const...)` -> the helper's return term with the arguments substituted (one level)."""
+    if t and t[0] == "call" and t[1] in w.bodies and not w.E.summaries[t[1]].W:
+        hb = w.body(t[1])
+        HT = w.terms(t[1])
+        rts = [WD.strip_names(HT.local(0, (rb, hb.n_stmts(rb)))) for rb in hb.return_blocks()]
+        if len(rts) == 1:
+            return shared.subst_loads(rts[0], list(t[2]))
+    return t
+
+
 def is_default_call(rhs):
     rhs = H.unwrap(rhs)
     return H.is_k(rhs, "call") and (H.path_of(rhs["f"]) or "").endswith("Default>::default") or \
@@ -304,6 +315,7 @@ def mask_rules(ctx, w):
             if kind == "is":
                 rts = [WD.strip_names(T.local(0, (rb, b.n_stmts(rb)))) for rb in b.return_blocks()]
                 t = rts[0] if len(rts) == 1 else None
+                t = inline_helper(w, t)
                 ok = bool(t) and t[0] == "binop" and t[1] == "Ne" and t[3] == ("const", 0) and t[2][0] == "binop" and t[2][1] == "BitAnd" and t[2][2][0] == "load" and t[2][3][0] == "const"
                 if ok:
                     m = t[2][3][1]
@@ -311,6 +323,12 @@ def mask_rules(ctx, w):
                 ctx.check(ok, "G3", fn, "%s must be `(attrs & MASK) != 0`, found %s" % (fn, [w.tstr(fn, x) for x in rts]), loc=w.fn_loc(fn), sample={"fn": fn, "term": [w.tstr(fn, x) for x in rts]})
             else:
                 sites = w.assign_sites({fn})
+                if not sites:
+                    # delegated to a helper taking the mask: analyse the helper with the constant argument
+                    for cs in w.E.call_sites(fn):
+                        if cs.local and len(cs.term["args"]) == 2:
+                            a = WD.strip_names(T.operand(cs.term["args"][1], cs.point))
+                            sites = [(f2, pt, p, shared.subst_loads(WD.strip_names(t2), [("load", ("arg1",)), a])) for f2, pt, p, t2 in w.assign_sites({cs.callee})]
                 ok = False
                 got = [w.tstr(fn, t) for _, _, _, t in sites]
                 if len(sites) == 1 and m is not None:
